@@ -131,13 +131,13 @@ Theorem bls_altered_share (P : {poly F}) S m j (delta : G1) :
     (bls_aggregate S [seq (if k == j then bls_sign P.[k%:R] m + delta else bls_sign P.[k%:R] m) | k <- S]) = false.
 Proof.
 move=> okS sP jin dn0; have [uS _ _] := and3P okS.
-rewrite /bls_aggregate combine_agg /agg_points (bigD1_seq j) //= eqxx scalerDr.
+rewrite /bls_aggregate combine_agg agg_pointsE (bigD1_seq j) //= eqxx scalerDr.
 have -> : \sum_(i <- S | i != j) lagrange0 (pts F S) i%:R *: (if i == j then bls_sign P.[i%:R] m + delta else bls_sign P.[i%:R] m)
         = \sum_(i <- S | i != j) lagrange0 (pts F S) i%:R *: bls_sign P.[i%:R] m.
   by apply: eq_bigr => i /negbTE ->.
 rewrite addrAC -(bigD1_seq j (F:=fun k => lagrange0 (pts F S) k%:R *: bls_sign P.[k%:R] m)) //=.
 have -> : \sum_(i <- S) lagrange0 (pts F S) i%:R *: bls_sign P.[i%:R] m = P.[0] *: H m.
-  by rewrite -(agg_points_poly natF_inj (H m) okS sP).
+  by rewrite -(agg_points_poly natF_inj (H m) okS sP) agg_pointsE.
 apply: bls_altered_signature.
 by rewrite scaler_eq0 negb_or dn0 andbT lagrange0_neq0 // pts_nonzero.
 Qed.
@@ -148,7 +148,7 @@ Theorem bls_assignment (f : nat -> F) (xs ys : seq nat) m :
   size ys = size xs ->
   bls_aggregate xs [seq bls_sign (f y) m | y <- ys] = (\sum_(p <- zip xs ys) lagrange0 (pts F xs) (p.1)%:R * f p.2) *: H m.
 Proof.
-move=> sz; rewrite /bls_aggregate /combine_witnesses scaler_suml.
+move=> sz; rewrite /bls_aggregate combineE scaler_suml.
 have -> : zip xs [seq bls_sign (f y) m | y <- ys] = [seq (p.1, bls_sign (f p.2) m) | p <- zip xs ys].
   elim: xs ys sz => [|x xs IH] [|y ys] //= [sz]; by rewrite IH.
 by rewrite big_map; apply: eq_bigr => p _; rewrite scalerA.
